@@ -17,4 +17,23 @@ PROPS["C02"] = {
     "assumptions": ["oracle: active-set enumeration QP in oracle/qp.h (exact for m<=12)"],
     "parts": [{"name": "vpsc", "src": "c01_vpsc.cpp", "quick": T(100, 10, ["--prop", "C02"], 1000), "thorough": T(1500, 10, ["--prop", "C02"], 1000)}],
 }
+
+PROPS["C03"] = {
+    "rule": "every scene of k pairwise interior-disjoint convex shapes (grid rectangles and their four right triangles; touching and collinear edges included) on the integer grid 0..G (x10), every pair of grid points strictly outside all closed shapes as connector endpoints, polyline and orthogonal mode, shapeBufferDistance 0 or 2, nudging on; orthogonal connectors routed one per transaction and all in one transaction. Non-trivial = the straight segment between the endpoints is blocked.",
+    "bounds": {"quick": "G=3, <=2 shapes", "thorough": "G=4 two shapes, G=3 three shapes"},
+    "assumptions": ["oracle: exact rational clipping (oracle/geom.h); a route is only required to be valid when the exact visibility graph (polyline) or the Hanan-grid search with zero-width corridors closed (orthogonal) finds a free path"],
+    "parts": [{"name": "routing", "src": "c03_routing.cpp", "quick": T(100, 30, ["--prop", "C03"], 1000), "thorough": T(1500, 60, ["--prop", "C03"], 1000)}],
+}
+PROPS["C04"] = {
+    "rule": "same scene alphabet as C03 (separated or touching convex obstacles), polyline mode, segmentPenalty in {0, 0.5, 3} grid cells, all other penalties 0; cost of displayRoute (length + penalty*bends) compared to 1e-6 with Dijkstra over (vertex, previous vertex) on the exact visibility graph. Non-trivial = straight segment blocked.",
+    "bounds": {"quick": "G=4 one shape, G=3 two shapes (rect+tri), G=4 two rects", "thorough": "G=5 two rects, G=4 two rect+tri, three shapes at G=3/4"},
+    "assumptions": ["oracle: exact visibility graph + Dijkstra over (vertex, previous vertex) in oracle/geom.h; bend cost model as in makepath.cpp (penalty per non-collinear bend)"],
+    "parts": [{"name": "routing", "src": "c03_routing.cpp", "quick": T(100, 30, ["--prop", "C04"], 1000), "thorough": T(1500, 60, ["--prop", "C04"], 1000)}],
+}
+PROPS["C05"] = {
+    "rule": "every scene of k rectangles at least one cell apart on grid 0..G, every free endpoint pair, segmentPenalty in {0.5,2,10} cells, optional single-direction restrictions on either end; raw route() cost (Manhattan length + penalty*bends) compared to 1e-6 with Dijkstra over (cell, heading) on the unit grid; every segment of route() and displayRoute() exactly axis-parallel; Avoid::bends() for every relative position x travel x arrival direction against a 0-1 BFS true minimum. Non-trivial = endpoints not aligned or straight segment blocked.",
+    "bounds": {"quick": "G=4 <=2 rects x 3 penalties; direction masks with one rect; bends() on [-2,2]^2", "thorough": "G=5 two rects x 3 penalties, three rects, direction masks with two rects; bends() on [-4,4]^2"},
+    "assumptions": ["oracle: grid Dijkstra over (cell, heading) with in-place U-turn = 2 bends, margin of 2 cells around the grid (oracle/geom.h)"],
+    "parts": [{"name": "routing", "src": "c03_routing.cpp", "quick": T(100, 30, ["--prop", "C05"], 1000), "thorough": T(1500, 60, ["--prop", "C05"], 1000)}],
+}
 NOT_APPLICABLE = {}
